@@ -202,6 +202,21 @@ func (c CallD) tgts() []any {
 	return es
 }
 
+// A registration call owns nothing of its caller's: the slices spread into HandleErrors / HandleErrorTypes / AbortOn... /
+// CancelOn... are overwritten right after the call (a caller re-using its slice), which must not change what was registered.
+var clobberErr = errors.New("verifharness: overwritten after registration")
+
+func clobberErrs(es []error) {
+	for i := range es {
+		es[i] = clobberErr
+	}
+}
+func clobberAny(es []any) {
+	for i := range es {
+		es[i] = clobberErr
+	}
+}
+
 // failureBuilder is the common shape of the FailurePolicyBuilder implementations.
 type failureBuilder[S any] interface {
 	HandleErrors(errs ...error) S
@@ -214,9 +229,13 @@ func applyHandle[S failureBuilder[S]](b S, calls []CallD) S {
 	for _, c := range calls {
 		switch c.K {
 		case "Errors":
-			b = b.HandleErrors(c.errs()...)
+			es := c.errs()
+			b = b.HandleErrors(es...)
+			clobberErrs(es)
 		case "ErrorTypes":
-			b = b.HandleErrorTypes(c.tgts()...)
+			ts := c.tgts()
+			b = b.HandleErrorTypes(ts...)
+			clobberAny(ts)
 		case "Result":
 			b = b.HandleResult(int(c.R))
 		default:
